@@ -195,7 +195,7 @@ class Report:
         path = os.path.join(d, "viol_%s_%d.json" % (self.tier, len(self.violations)))
         if len(self.violations) < 10:
             with open(path, "w") as f:
-                json.dump({"property": self.prop, "facts": facts, "replay": replay_doc}, f, indent=1, default=str)
+                json.dump({"property": self.prop, "tier": self.tier, "seed": seed(), "facts": facts, "replay": replay_doc}, f, indent=1, default=str)
         self.violations.append({"facts": facts, "path": path})
         return True
 
